@@ -1533,3 +1533,26 @@ def o_c10_conjunctions(ctx):
 P.PROPS["C10"]["streams"].append(o_c10_conjunctions)
 P.PROPS["C10"]["sources"] = DIALECT_SOURCES
 P.PROPS["C10"]["search"] = lambda ctx: (lambda c: {"what": c.disagreements[0]["what"], "text": c.disagreements[0].get("source")} if c.disagreements else None)(o_c10_conjunctions(ctx))
+
+
+def c05_histories(ctx):
+    """one matcher through a document with a language header, then one without: the default dialect is back in force"""
+    D = S.dialects()
+    r = rng("c05h")
+    codes = sorted(D)
+    reqs = []
+
+    def doc(code, header):
+        d = D[code]
+        giv = [x for x in d["given"] if x != "* "][0]
+        return ("# language: %s\n" % code if header else "") + d["feature"][0] + ": f\n  " + d["scenario"][0] + ": s\n    " + giv + "a\n    " + d["when"][-1] + "b\n    " + d["and"][-1] + "c\n"
+    for _ in range(S.n_for(150, 2000)):
+        dflt, other = r.choice(codes), r.choice(codes)
+        reqs.append(("parse_history", [dflt, [[False, doc(other, True)], [False, doc(dflt, False)], [False, doc(other, False)]]]))
+
+    def proj(res, req=None):
+        return [P.p_keywords(x) for x in res] if isinstance(res, list) else res
+    return differential("header-then-default", reqs, proj=proj, nontrivial=lambda q, x: canon(q[1])[:200], classify=lambda q, x: "hist")
+
+
+P.PROPS["C05"]["streams"].append(c05_histories)
